@@ -105,7 +105,7 @@ theorem pgraph_append {A B : Table D} {K : Nat} {st : Bool} {join0 : D → D →
     rw [List.getElem?_append_right (by omega)] at h
     exact ⟨h, (List.getElem?_eq_some_iff.mp h).1⟩
   have hlenAB : (nodesA ++ nodesB).length = nodesA.length + nodesB.length := List.length_append
-  refine ⟨?_, ?_, ?_, ?_, ?_, ?_, ?_, ?_, ?_, ?_, ?_, ?_⟩
+  refine ⟨?_, ?_, ?_, ?_, ?_, ?_, ?_, ?_, ?_, ?_, ?_, ?_, ?_⟩
   · intro i n h
     by_cases hi : i < nodesA.length
     · exact pa.len i n (hA i n h hi)
@@ -196,6 +196,16 @@ theorem pgraph_append {A B : Table D} {K : Nat} {st : Bool} {join0 : D → D →
     · simp only [hiA, if_true]; exact pa.portMem i s hiA
     · simp only [hiA, if_false]
       exact List.mem_map.mpr ⟨_, pb.portMem _ s (by omega), rfl⟩
+  · intro i hi
+    rw [hlenAB] at hi
+    by_cases hiA : i < nodesA.length
+    · simp only [hiA, if_true]; exact pa.portNe i hiA
+    · simp only [hiA, if_false]
+      intro h
+      apply pb.portNe _ (by omega : i - nodesA.length < nodesB.length)
+      have h1 := congrArg Prod.fst h; have h2 := congrArg Prod.snd h
+      simp only [shiftP] at h1 h2
+      exact Prod.ext (by omega) h2
   · intro x d y d' h
     by_cases hx : x < A.length
     · simp only [hx, if_true] at h
@@ -264,7 +274,7 @@ def AllPorted (K : Nat) (st : Bool) (join0 : D → D → Bool) : List (Table D) 
 
 theorem pgraph_nil (K : Nat) (st : Bool) (join0 : D → D → Bool) :
     PGraph ([] : Table D) K st join0 [] (fun _ s => (0, s)) (fun _ => []) (fun _ _ => none) := by
-  refine ⟨?_, ?_, ?_, ?_, ?_, ?_, ?_, ?_, ?_, ?_, ?_, ?_⟩ <;> intros <;> simp_all
+  refine ⟨?_, ?_, ?_, ?_, ?_, ?_, ?_, ?_, ?_, ?_, ?_, ?_, ?_⟩ <;> intros <;> simp_all
 
 /-- **the shards' graphs, side by side, are ported into the concatenated table** -/
 theorem pgraph_flatten (K : Nat) (st : Bool) (join0 : D → D → Bool) :
